@@ -163,6 +163,8 @@ func checkC04(c *Ctx) {
 		m := map[string]string{"baseResponse.messageID": mid}
 		if !unset["withResponseCode"] {
 			m["baseResponse.code"] = "conv<int16>(opt(withResponseCode))"
+		} else {
+			m["baseResponse.code"] = "conv<int16>(0)" // ResultSuccess: the zero value, stored or simply left unset
 		}
 		return m
 	}
@@ -179,6 +181,12 @@ func checkC04(c *Ctx) {
 			continue
 		}
 		w := &an.Walker{Fn: f}
+		{
+			// helpers that are handed the options struct (opts.resultCode(def)) decide on option fields too
+			probe := &frame{c: c, fn: f, env: &symEnv{}, mem: map[string]string{}, nodes: map[ssa.Value]*Node{}, optsV: map[ssa.Value]bool{}, elem: map[ssa.Value]string{}}
+			probe.findOpts()
+			w.Helpers = probe.optsHelperCalls()
+		}
 		atoms := w.CondAtoms()
 		okAtoms := true
 		for _, a := range atoms {
@@ -216,6 +224,9 @@ func checkC04(c *Ctx) {
 			diff := ""
 			for _, k := range sortedKeys(want) {
 				if got[k] != want[k] {
+					if _, set := got[k]; !set && (want[k] == "conv<int16>(0)" || want[k] == "0") {
+						continue // left at the zero value, which is what is wanted
+					}
 					diff += sprintf("%s = %q, want %q; ", k, got[k], want[k])
 				}
 			}
@@ -259,12 +270,20 @@ func checkC04(c *Ctx) {
 		R.Check(okAttr, "C04-ctor", "(*Request).NewSearchResponseEntry: attributes from WithAttributes", c.P.Pos(f.Pos()), "one NewEntryAttribute(name, values) per entry of the WithAttributes map", "attributes are not built as NewEntryAttribute(key, value) of the WithAttributes map")
 	}
 	if f := c.fn(G, "NewEntryAttribute"); f != nil {
-		r := c.interp(f, &symEnv{}, map[string]bool{}, nil)
-		got := map[string]string{}
-		if len(r.retExpr) == 1 && strings.HasPrefix(r.retExpr[0], "&alloc:") {
-			r.fr.fieldsOf(r.retExpr[0][1:], "", got, 0)
+		// on every path (every valuation of the function's branch atoms)
+		okAll, bad := true, ""
+		atoms := (&an.Walker{Fn: f}).CondAtoms()
+		for _, val := range an.Valuations(atoms) {
+			r := c.interp(f, &symEnv{}, val, nil)
+			got := map[string]string{}
+			if len(r.retExpr) == 1 && strings.HasPrefix(r.retExpr[0], "&alloc:") {
+				r.fr.fieldsOf(r.retExpr[0][1:], "", got, 0)
+			}
+			if got["Name"] != "$0" || got["Values"] != "$1" {
+				okAll, bad = false, sprintf("NewEntryAttribute stores Name=%q Values=%q%s %s", got["Name"], got["Values"], an.ValString(val), r.undec)
+			}
 		}
-		R.Check(got["Name"] == "$0" && got["Values"] == "$1", "C04-ctor", "NewEntryAttribute", c.P.Pos(f.Pos()), "Name and Values are the arguments", sprintf("NewEntryAttribute stores Name=%q Values=%q", got["Name"], got["Values"]))
+		R.Check(okAll, "C04-ctor", "NewEntryAttribute", c.P.Pos(f.Pos()), sprintf("Name and Values are the arguments on every path (%d branch atoms)", len(atoms)), bad)
 	}
 	R.Floor("C04-ctor", 12)
 
@@ -379,6 +398,6 @@ func checkC04(c *Ctx) {
 			R.Check(isMI && e.newIntOK[tn], "C04-newinteger", fname(f)+": ber.NewInteger("+an.Canon(v)+")", c.pos(ci), "static type "+tn+" is accepted by ber.NewInteger", "ber.NewInteger panics for dynamic type "+tn+" ("+an.Path(v)+")")
 		}
 	}
-	R.Floor("C04-newinteger", 8)
+	R.Floor("C04-newinteger", 3)
 	R.NotDecided = append(R.NotDecided, "BER length / identifier octets for long strings (library)", "ExtendedResponse.name is stored but not encoded (not part of the statement)")
 }
